@@ -136,6 +136,10 @@ impl Story {
 
         self.reset_globals()?;
 
+        // A new story validates its external bindings on the first continue;
+        // bindings may have been removed since this one did.
+        self.has_validated_externals = false;
+
         Ok(())
     }
 }
